@@ -24,7 +24,20 @@ package main
 // threshold) after well-separated initial versions; each slot holds no event or
 // one of {node 1 | node 2 | way} x {the way's changeset A | a foreign one}; every
 // assignment with 1..3 way versions and at most 4 events, under the default
-// threshold, Threshold(1 min) and IgnoreInconsistency.
+// threshold, Threshold(1 min), IgnoreInconsistency, Threshold(0) (no grouping:
+// the interval shrinks to the version current by timestamp), Threshold(24 h)
+// (everything after the way is inside the window) and Threshold(1 min) with
+// IgnoreInconsistency; way shapes [1 2], [1 2 1], [1 1 1 2] and [2 1 2 1 2].
+//
+// Twins: assignments with at most 3 events are repeated with a second event in
+// the SAME second as one of them, written after it (every occupied slot x every
+// event kind; default threshold, Threshold(0), IgnoreInconsistency; way [1 2]
+// and [1 2 1]). gen/histsim only has same-second uploads in the order child,
+// then parent. For a node version stamped in the way's second but written after
+// it both readings are admissible, so the lower end of the interval is the
+// newest version stamped before the way's second or written before the way in
+// that second; the upper end stays the newest version stamped at most one
+// threshold later.
 
 import (
 	"context"
@@ -38,9 +51,11 @@ import (
 )
 
 type windowCase struct {
-	Slots []int `json:"slots"` // per slot: 0 none, 1..6 = element (0 node1, 1 node2, 2 way) * 2 + foreign + 1
-	Opt   int   `json:"opt"`   // 0 default, 1 Threshold(1 min), 2 IgnoreInconsistency
-	Ring  bool  `json:"ring"`  // way [1 2 1] instead of [1 2]
+	Slots []int `json:"slots"`           // per slot: 0 none, 1..6 = element (0 node1, 1 node2, 2 way) * 2 + foreign + 1
+	Opt   int   `json:"opt"`             // 0 default, 1 Threshold(1 min), 2 IgnoreInconsistency, 3 Threshold(0), 4 Threshold(24 h), 5 Threshold(1 min) + IgnoreInconsistency
+	Ring  bool  `json:"ring"`            // way [1 2 1] instead of [1 2]
+	Shape int   `json:"shape,omitempty"` // 1: way [1 1 1 2], 2: way [2 1 2 1 2] (Ring false)
+	Twin  []int `json:"twin,omitempty"`  // [slot, event]: a second event in the same second as the slot's own event, written after it
 }
 
 func (c windowCase) String() string {
@@ -48,6 +63,12 @@ func (c windowCase) String() string {
 	s := ""
 	for _, e := range c.Slots {
 		s += names[e] + " "
+	}
+	if len(c.Twin) == 2 {
+		s += fmt.Sprintf("+ %s in slot %d ", names[c.Twin[1]], c.Twin[0])
+	}
+	if c.Shape != 0 {
+		return fmt.Sprintf("slots[%s] opt=%d shape=%d", s, c.Opt, c.Shape)
 	}
 	return fmt.Sprintf("slots[%s] opt=%d ring=%v", s, c.Opt, c.Ring)
 }
@@ -58,9 +79,26 @@ func windowFamily(r *kit.Run) {
 	rec = func(slots []int, events, ways int) {
 		if len(slots) == 5 {
 			if ways >= 1 {
-				for opt := 0; opt < 3; opt++ {
+				for opt := 0; opt < 6; opt++ {
 					for _, ring := range []bool{false, true} {
 						cases = append(cases, windowCase{Slots: append([]int(nil), slots...), Opt: opt, Ring: ring})
+					}
+					for shape := 1; shape <= 2; shape++ {
+						cases = append(cases, windowCase{Slots: append([]int(nil), slots...), Opt: opt, Shape: shape})
+					}
+				}
+			}
+			if events <= 3 {
+				for sl, own := range slots {
+					for e := 1; own != 0 && e <= 6; e++ {
+						if ways == 0 && e < 5 || ways == 3 && e >= 5 {
+							continue
+						}
+						for _, opt := range []int{0, 3, 2} {
+							for _, ring := range []bool{false, true} {
+								cases = append(cases, windowCase{Slots: append([]int(nil), slots...), Opt: opt, Ring: ring, Twin: []int{sl, e}})
+							}
+						}
 					}
 				}
 			}
@@ -99,6 +137,15 @@ func checkWindow(r *kit.Run, c windowCase) {
 		opts = append(opts, annotate.Threshold(thr))
 	case 2:
 		opts = append(opts, annotate.IgnoreInconsistency(true))
+	case 3:
+		thr = 0
+		opts = append(opts, annotate.Threshold(thr))
+	case 4:
+		thr = 24 * time.Hour
+		opts = append(opts, annotate.Threshold(thr))
+	case 5:
+		thr = time.Minute
+		opts = append(opts, annotate.IgnoreInconsistency(true), annotate.Threshold(thr))
 	}
 	const csA, csB, csF, csOld = 500, 600, 700, 100
 	hist := map[osm.NodeID]osm.Nodes{}
@@ -106,10 +153,11 @@ func checkWindow(r *kit.Run, c windowCase) {
 		hist[id] = osm.Nodes{{ID: id, Version: 1, Visible: true, ChangesetID: csOld, Timestamp: t0.AddDate(0, 0, -10).Add(time.Duration(id) * time.Hour), Lat: 1, Lon: float64(id)}}
 	}
 	var ways osm.Ways
-	for s, e := range c.Slots {
-		if e == 0 {
-			continue
-		}
+	seq := 0                       // order in which the versions were written
+	nodeSeq := map[*osm.Node]int{} // node version -> seq
+	waySeq := map[*osm.Way]int{}   // way version -> seq
+	event := func(s, e int) {
+		seq++
 		at := t0.Add(time.Duration(s) * d / 2)
 		el, foreign := (e-1)/2, (e-1)%2 == 1
 		if el < 2 {
@@ -119,8 +167,10 @@ func checkWindow(r *kit.Run, c windowCase) {
 				cs = csF
 			}
 			v := len(hist[id]) + 1
-			hist[id] = append(hist[id], &osm.Node{ID: id, Version: v, Visible: true, ChangesetID: cs, Timestamp: at, Lat: float64(v), Lon: float64(id)})
-			continue
+			n := &osm.Node{ID: id, Version: v, Visible: true, ChangesetID: cs, Timestamp: at, Lat: float64(v), Lon: float64(id)}
+			hist[id] = append(hist[id], n)
+			nodeSeq[n] = seq
+			return
 		}
 		cs := osm.ChangesetID(csA)
 		if foreign {
@@ -130,7 +180,25 @@ func checkWindow(r *kit.Run, c windowCase) {
 		if c.Ring {
 			w.Nodes = append(w.Nodes, osm.WayNode{ID: 1})
 		}
+		switch c.Shape {
+		case 1:
+			w.Nodes = osm.WayNodes{{ID: 1}, {ID: 1}, {ID: 1}, {ID: 2}}
+		case 2:
+			w.Nodes = osm.WayNodes{{ID: 2}, {ID: 1}, {ID: 2}, {ID: 1}, {ID: 2}}
+		}
 		ways = append(ways, w)
+		waySeq[w] = seq
+	}
+	for s, e := range c.Slots {
+		if e != 0 {
+			event(s, e)
+		}
+		if len(c.Twin) == 2 && c.Twin[0] == s {
+			event(s, c.Twin[1])
+		}
+	}
+	if len(ways) == 0 {
+		return // (a replay file without a way version)
 	}
 	nupd := 0
 	for _, h := range hist {
@@ -164,6 +232,7 @@ func checkWindow(r *kit.Run, c windowCase) {
 		fail("error-on-consistent-history", fmt.Sprintf("every node exists and is visible throughout, yet: %v", err))
 		return
 	}
+	// newest version stamped at or before t
 	latestAt := func(id osm.NodeID, t time.Time) int {
 		v := 0
 		for _, n := range hist[id] {
@@ -173,9 +242,19 @@ func checkWindow(r *kit.Run, c windowCase) {
 		}
 		return v
 	}
+	// newest version stamped before the way's second, or in it and written before the way
+	latestBefore := func(id osm.NodeID, w *osm.Way) int {
+		v := 0
+		for _, n := range hist[id] {
+			if n.Timestamp.Before(w.Timestamp) || (n.Timestamp.Equal(w.Timestamp) && nodeSeq[n] < waySeq[w]) {
+				v = n.Version
+			}
+		}
+		return v
+	}
 	for k, w := range ways {
 		for i, wn := range w.Nodes {
-			lo, hi := latestAt(wn.ID, w.Timestamp), latestAt(wn.ID, w.Timestamp.Add(thr))
+			lo, hi := latestBefore(wn.ID, w), latestAt(wn.ID, w.Timestamp.Add(thr))
 			if wn.Version < lo || wn.Version > hi {
 				fail("carried-version-outside-window", fmt.Sprintf("way v%d node[%d]=n%d carries version %d; current by timestamp at the way's time: %d, one threshold later: %d", w.Version, i, wn.ID, wn.Version, lo, hi))
 				return
